@@ -92,7 +92,7 @@ def main(argv=None):
             continue
         idx, seed, plan, od = sorted(cases, key=lambda c: c[0])[0]
         small, info = shrink.shrink(eng, plan, prop, od["oracle"])
-        out = runner.run_plan(eng, small, prop)
+        out = runner.run_plan_iso(eng, small, prop)
         sig2 = "%s:%s:%s" % (prop, out.oracle, out.key)
         if out.status == VIOLATION and sig2 in known:
             # the minimised form is a listed finding: the original was that finding plus noise
